@@ -1,5 +1,6 @@
 (* C11 -- queries never modify anything and may run concurrently.  Property theorems only. *)
 From Stackage Require Import Base Generated StackImpl StackSpec StackRefine StackCorollaries Guard GeneratedIR GuardProps.
+From Stackage Require Values EqualBase Equal EqualTie.
 Open Scope Z_scope.
 
 (* (a) static: every exported method that is not in the declared mutator
@@ -38,6 +39,20 @@ Proof.
   pose proof (observer_frame V nilv isnil isstack pol r r1 o x Ho H). subst r1. exact H.
 Qed.
 Print Assumptions c11_query_deterministic.
+
+(* (c) "give the same answer when repeated", for the one query whose worker
+   walks a Go map (IsEqual over map leaves; the runtime chooses the order of
+   the walk anew on every call): in the loop of mapsEqual as it is in the
+   source now (Generated.g_mapsEqual_body) a differing value ends the
+   comparison at once, so the verdict on a pair of maps that differ in one
+   entry is "not equal" wherever that entry falls in the walk *)
+Theorem c11_map_comparison_verdict_is_order_independent :
+  forall (rec : Values.value -> Values.value -> res bool) pre k v v' t ky,
+    (forall p q, In (p, q) pre -> exists q', EqualBase.glookup p ky = Some q' /\ rec (Values.VLeaf q) (Values.VLeaf q') = Ok true) ->
+    EqualBase.glookup k ky = Some v' -> rec (Values.VLeaf v) (Values.VLeaf v') = Ok false ->
+    Equal.map_loop rec (pre ++ (k, v) :: t) ky = Ok false.
+Proof. exact EqualTie.map_loop_first_difference. Qed.
+Print Assumptions c11_map_comparison_verdict_is_order_independent.
 
 Example c11_nonvacuous :
   existsb (fun e => bytes_eqb (en_name e) (B "String") && is_inst_class e && negb (is_mutator e)) ir_entries = true /\
